@@ -134,6 +134,17 @@ theorem C09_add_obstacle_with_lanelets (s : St) (r : Role) (k : Nat) (on refs : 
   · show (addObj s (.obstacleOn r k on) refs).2 = _
     rw [addObstacleOn_snd, if_neg hk]
 
+/-- An environment / phantom obstacle is never registered on lanelets (the branches of `add_objects` for these two roles
+    only mark the id and store the obstacle, scenario.py:754-759 — read off the translated source, tie `T09.tie_add_objects`):
+    whatever lanelet assignment the object carries, the call behaves exactly like the add of an obstacle without one — same
+    state, same outcome, for every state (no invariant needed). -/
+theorem C09_add_unregistered_role_ignores_assignment (s : St) (r : Role) (k : Nat) (on refs : List Nat)
+    (hr : r.onLanelets = false) :
+    step s (.add (.obstacleOn r k on) refs) = step s (.add (.obstacle r k) refs) := by
+  show addObstacleOn s r k on = onMarked (mark s k) fun s1 => putObstacle s1 r k
+  unfold addObstacleOn onMarked
+  rcases mark s k with ⟨s1, _ | e⟩ <;> simp [hr]
+
 /-- Frame of an accepted add (anything but a whole network): every object that was contained is still contained
     (`Keeps`: obstacles per role, lanelets by id, signs, lights, intersections with their incomings), the multiset of
     contained ids grows by exactly the ids of the new object, and so does the id pool. -/
